@@ -433,6 +433,77 @@ theorem weighted_frame (env : Env ℝ) (s t : State ℝ) (h : SameProblem s t tr
   have := estimate_frame env _ _ (sameProblem_weight s t h)
   exact ⟨this.2.2.1, this.2.2.2⟩
 
+/-! ### The object keeps no summary of the rows between calls (seeded change c07f)
+
+`JtJ_` / `JtY_` are scratch: every estimate rebuilds them from the rows as they are at the call.  So an estimate answered
+earlier — of whichever kind — cannot influence a later one, and rows rewritten by the caller after an estimate (through
+references obtained before it or after it: the model's `writeRow` / `setW` is the write itself) are the rows the next
+estimate uses.  All statements are for EVERY object state, every environment, every list of writes. -/
+
+/-- `inverseJtJ_` is not part of the problem -/
+theorem sameProblem_setInv (s : State ℝ) (m : Mat ℝ) (w : Bool) : SameProblem { s with inv := m } s w :=
+  ⟨rfl, rfl, rfl, rfl, fun _ _ _ _ => rfl, fun _ _ => rfl, fun _ _ _ => rfl⟩
+
+/-- an unweighted estimate changes nothing but `inverseJtJ_` -/
+theorem estimate_keeps_problem (env : Env ℝ) (s : State ℝ) (w : Bool) :
+    SameProblem (estimateSVD env s).1 s w ∧ SameProblem (estimateCholesky env s).1 s w :=
+  ⟨sameProblem_setInv s _ w, sameProblem_setInv s _ w⟩
+
+/-- **solve, then solve / weighted-solve again on the same data**: the second answer is what a object that had never
+    been asked before returns (in particular the weighted estimate after a Cholesky or SVD estimate IS the weighted one) -/
+theorem estimate_after_estimate (env : Env ℝ) (s : State ℝ) :
+    (weightedEstimate env (estimateCholesky env s).1).2 = (weightedEstimate env s).2 ∧
+    (weightedEstimate env (estimateSVD env s).1).2 = (weightedEstimate env s).2 ∧
+    (estimateSVD env (estimateCholesky env s).1).2 = (estimateSVD env s).2 ∧
+    (estimateCholesky env (estimateSVD env s).1).2 = (estimateCholesky env s).2 ∧
+    (estimateCholesky env (estimateCholesky env s).1).2 = (estimateCholesky env s).2 ∧
+    (estimateSVD env (estimateSVD env s).1).2 = (estimateSVD env s).2 := by
+  have hc := (estimate_keeps_problem env s true).2
+  have hv := (estimate_keeps_problem env s true).1
+  have hc' := (estimate_keeps_problem env s false).2
+  have hv' := (estimate_keeps_problem env s false).1
+  exact ⟨(weighted_frame env _ _ hc).1, (weighted_frame env _ _ hv).1, (estimate_frame env _ _ hc').1,
+    (estimate_frame env _ _ hv').2.2.1, (estimate_frame env _ _ hc').2.2.1, (estimate_frame env _ _ hv').1⟩
+
+/-- solve again right after a weighted solve: the rows ARE the scaled rows now (`weighted_scales_in_place`), the answer
+    is the weighted one again, on both paths' inputs -/
+theorem estimate_after_weighted (env : Env ℝ) (s : State ℝ) :
+    (estimateCholesky env (weightedEstimate env s).1).2 = (weightedEstimate env s).2 ∧
+    (estimateSVD env (weightedEstimate env s).1).2 = (estimateSVD env (weightJAndY s)).2 := by
+  have h : SameProblem (weightedEstimate env s).1 (weightJAndY s) false := sameProblem_setInv (weightJAndY s) _ false
+  exact ⟨(estimate_frame env _ _ h).2.2.1, (estimate_frame env _ _ h).1⟩
+
+/-- a list of caller writes: rows `(i, r, y)` and weights `(i, w)` -/
+def callerWrites (s : State ℝ) (l : List (Nat × Vec ℝ × ℝ ⊕ Nat × ℝ)) : State ℝ :=
+  l.foldl (fun s w => match w with
+    | .inl (i, r, y) => writeRow s i r y
+    | .inr (i, w) => setW s i w) s
+
+/-- caller writes do not look at `inverseJtJ_` and do not touch it -/
+theorem callerWrites_setInv (s : State ℝ) (m : Mat ℝ) (l : List (Nat × Vec ℝ × ℝ ⊕ Nat × ℝ)) :
+    callerWrites { s with inv := m } l = { callerWrites s l with inv := m } := by
+  induction l generalizing s with
+  | nil => rfl
+  | cons w ws ih =>
+    cases w with
+    | inl t => exact ih (writeRow s t.1 t.2.1 t.2.2)
+    | inr t => exact ih (setW s t.1 t.2)
+
+/-- **solve, overwrite rows / weights (no resize, any references), solve again**: every estimate after the writes equals
+    that of an object on which the first estimate was never computed — the answer of problem 1 cannot come back -/
+theorem estimate_after_rewrite (env : Env ℝ) (s : State ℝ) (l : List (Nat × Vec ℝ × ℝ ⊕ Nat × ℝ)) (first : State ℝ)
+    (hfirst : first = (estimateSVD env s).1 ∨ first = (estimateCholesky env s).1) :
+    (estimateSVD env (callerWrites first l)).2 = (estimateSVD env (callerWrites s l)).2 ∧
+    (estimateCholesky env (callerWrites first l)).2 = (estimateCholesky env (callerWrites s l)).2 ∧
+    (weightedEstimate env (callerWrites first l)).2 = (weightedEstimate env (callerWrites s l)).2 := by
+  have key : ∀ m : Mat ℝ, SameProblem (callerWrites { s with inv := m } l) (callerWrites s l) true := fun m => by
+    rw [callerWrites_setInv]; exact sameProblem_setInv _ m true
+  have key' : ∀ m : Mat ℝ, SameProblem (callerWrites { s with inv := m } l) (callerWrites s l) false := fun m => by
+    rw [callerWrites_setInv]; exact sameProblem_setInv _ m false
+  rcases hfirst with h | h <;> subst h
+  · exact ⟨(estimate_frame env _ _ (key' _)).1, (estimate_frame env _ _ (key' _)).2.2.1, (weighted_frame env _ _ (key _)).1⟩
+  · exact ⟨(estimate_frame env _ _ (key' _)).1, (estimate_frame env _ _ (key' _)).2.2.1, (weighted_frame env _ _ (key _)).1⟩
+
 private theorem sameProblem_of_refines (s : State ℝ) (a : Spec) (needW : Bool) (h : Refines s a) (hd : a.Defined needW) :
     SameProblem s a.problem needW := by
   obtain ⟨he, hn, _, _, _, _, hAc, hBc, hJ, hY, hW, _⟩ := h
